@@ -416,7 +416,7 @@ def drive_surface(recipe):
             residuals[i].append(t["res"])
             out.append(t)
     for i in range(len(systems)):
-        bm = max(t["bmax"] for t in out if t["meta"]["part"]["mesh"] == i)
+        bm = max(t["bmax"] for t in out if t["meta"]["part"].get("mesh") == i)
         out.append({"kind": "trend", "api": api, "field": kind, "exc": excs[i], "seps": list(seps),
                     "res": residuals[i], "iso": out[0]["iso"], "bmax": bm,
                     "meta": {"recipe": recipe, "source": recipe["src"], "part": {"trend": i},
